@@ -235,6 +235,41 @@ class C18(verif.Spec):
                     s.close(ks.pop(rng.randrange(len(ks))))
             s.iter(3)
             cases.append(s.ops)
+        # 5b. the device is re-programmed under connected clients (norm change): grants of unchanged requests change
+        for _ in range(12 if quick else 150):
+            s = Sched(rng)
+            n = rng.choice([1, 2, 3])
+            ks = []
+            for j in range(n):
+                stalled = rng.random() < 0.5
+                ks.append(s.conn(rng.choice([0x1, 0x2, 0x3, 0x5, 0x6]), rng.choice([0, 1]), 0, credit=(1040 if stalled else BIG)))
+            s.iter(n + 3)
+            for _ in range(rng.randint(0, 4)):
+                s.cap(ids=[1, 2, 4], nmax=2); s.iter()
+            m = rng.choice([0x1, 0x2, 0x4, 0x3, 0x6, 0x5, 0x7, 0])
+            s.supp = [m] * 4
+            s.ops.append("dev 625 %d %s" % (s.L, " ".join("0x%x" % x for x in s.supp)))
+            r = rng.random()
+            if r < 0.5:
+                ks.append(s.conn(rng.choice([0x1, 0x2, 0x4, 0x7]), 0, 0))
+            elif r < 0.8:
+                s.svc(rng.choice(ks), rng.choice([0x1, 0x2, 0x4]), 0, rng.choice([0, 1]))
+            else:
+                s.close(rng.choice(ks))
+            s.iter(3)
+            for _ in range(rng.randint(1, 5)):
+                s.cap(ids=[1, 2, 4], nmax=2); s.iter()
+            for k in ks:
+                if not s.cl[k]["closed"] and rng.random() < 0.7:
+                    s.ops.append("credit %d %d" % (k, BIG))
+            s.iter(3)
+            s.cap(ids=[1, 2, 4], nmax=2); s.iter(3)
+            # every client leaves inside the case: a crash of the end-of-case cleanup would be attributed to the next case
+            for k in ks:
+                if not s.cl[k]["closed"]:
+                    s.close(k)
+            s.iter(4)
+            cases.append(s.ops)
         # 6. malformed op lines (both sides must reject them the same way)
         bad = ["conn", "conn 1", "conn 1 0", "conn 1 3 0", "conn 1 -2 0", "conn 0x20000000 0 0", "conn 1 0 256", "conn -1 0 0",
                "svc 0 1 0", "svc 9 1 0 0", "svc 0 1 0 2", "svc 0 0x40000000 0 0", "svc x 1 0 0", "bye", "bye 7", "close", "close 0 0",
@@ -318,9 +353,19 @@ class C18(verif.Spec):
         return o.known
 
     def signature(self, case, what):
-        if what.startswith(("filter-truncation:", "force-free-second:")):
+        if what.startswith(("filter-truncation:", "force-free-second:", "grant-lost:")):
             return "proxyq:" + what.split(":")[0]
+        if what.startswith("runtime acq-thread-link:"):
+            return "proxyq:mp:acq-thread-link"
+        if what.startswith("runtime"):
+            return "proxyq:mp:" + re.sub(r"\s+", " ", re.sub(r"0x[0-9a-f]+|\d+", "N", what[8:]))[:80]
         if what.startswith("crash of the real code"):
+            kinds = [l.split()[0] for l in case]
+            reconf = "dev" in kinds and "conn" in kinds[:kinds.index("dev")]
+            if reconf and ("p_proxy_dev->p_sliced == p_buf" in what or "heap-use-after-free" in what):
+                # D6: the device was re-programmed under connected clients; a client whose grant became empty kept
+                # its cursor: the next release trips the assertion (or reads a buffer freed by stop_acquisition)
+                return "proxyq:grant-lost"
             if "line_count < p_buf->max_lines" in what:
                 return "proxyq:crash:assert-line-count"
             if "heap-use-after-free" in what and "vbi_proxy_queue_release_sliced" in what and any(l.split()[0] == "term" for l in case):
